@@ -151,6 +151,37 @@ def validate(traces: list[dict]) -> tuple[dict, fx.TlcResult | None]:
     return verdicts, total
 
 
+def binding_selftest(traces: list[dict], rng) -> list[dict]:
+    """Corrupted copies of recorded traces (one recorded field changed) that the trace specification must
+    reject: the demonstration that Trace_Reduce is bound to what was recorded and is not vacuous.
+      unreduced  : the recorded result replaced by the recorded input term   -> not_normal_form expected
+      dropped    : a firing's produced operands replaced by its left operand  -> firing_unsound / firing_structure
+      swapped    : the recorded result replaced by another trace's result     -> den / structure"""
+    import copy
+
+    ok = [t for t in traces if t.get('exc') is None and not t.get('opaque') and t.get('firings')
+          and t.get('after_ok', True) and t.get('term', {}).get('k') == 'comp']
+    ok = rng.sample(ok, min(len(ok), 24))
+    out = []
+    for i, t in enumerate(ok):
+        base = {k: copy.deepcopy(t[k]) for k in ('term', 'result', 'firings', 'den')}
+        if fx.canon(t['result']) != fx.canon(t['term']):
+            c = dict(copy.deepcopy(base), id=f'selftest-unreduced-{i}', expect=['not_normal_form'])
+            c['result'] = copy.deepcopy(t['term'])
+            out.append(c)
+        f0 = t['firings'][0]
+        if f0['r'].get('k') != 'id' and fx.canon(f0['new']) != fx.canon([f0['l']]):
+            c = dict(copy.deepcopy(base), id=f'selftest-dropped-{i}', expect=['firing_unsound', 'firing_structure'])
+            c['firings'][0]['new'] = [copy.deepcopy(f0['l'])]
+            out.append(c)
+        other = ok[(i + 1) % len(ok)]
+        if fx.canon(other['den']) != fx.canon(t['den']):
+            c = dict(copy.deepcopy(base), id=f'selftest-swapped-{i}', expect=['den', 'structure'])
+            c['result'] = copy.deepcopy(other['result'])
+            out.append(c)
+    return out
+
+
 C01_CLAUSES = {'firing_unsound', 'firing_structure', 'den', 'structure', 'input_projection'}
 C07_CLAUSES = {'not_normal_form'}
 
@@ -271,8 +302,21 @@ def run(prop: str, tier: str, seed: int) -> int:
     picked.sort(key=lambda c: (c.get('names') or [''])[0:2])
     traces = fx.replay('redcheck', 'execute', picked, procs=fx.NPROC, chunksize=max(4, len(picked) // (fx.NPROC * 3)))
     t3 = time.time()
-    verdicts, tv = validate(traces)
+    selftests = binding_selftest(traces, random.Random(seed + 1))
+    verdicts, tv = validate(traces + selftests)
     t4 = time.time()
+    st_rejected = {}
+    for c in selftests:
+        kind = c['id'].split('-')[1]
+        got = {b['clause'] for b in verdicts.get(c['id'], [])}
+        st = st_rejected.setdefault(kind, [0, 0])
+        st[1] += 1
+        st[0] += bool(got & set(c['expect']))
+    # a trace specification that accepts corrupted recordings decides nothing: machinery failure, not a verdict
+    for kind, (rej, tot) in st_rejected.items():
+        floor = tot if kind != 'unreduced' else max(1, tot // 2)     # a firing inside an operand leaves the top-level chain normal
+        if rej < floor:
+            raise fx.MachineryError(f'binding self-test: only {rej} of {tot} corrupted traces ({kind}) rejected by Trace_Reduce')
     stats = judge(prop, picked, traces, verdicts, verd)
     rc = verd.finish()
     states = sum(g.distinct for g in gens) + nest.distinct + (tv.distinct if tv else 0)
@@ -293,6 +337,7 @@ def run(prop: str, tier: str, seed: int) -> int:
         'timing_s': {'chains_tlc': round(t1 - t0, 1), 'nested_tlc': round(t2 - t1, 1), 'replay': round(t3 - t2, 1),
                      'trace_validation': round(t4 - t3, 1)},
         'unreduced_operator_disagrees_with_spec': stats.get('unreduced_mismatch', [])[:20],
+        'binding_selftest': {k: {'corrupted': v[1], 'rejected': v[0]} for k, v in st_rejected.items()},
         'drift_traces': stats['drift'], 'drift_examples': stats.get('drift_examples', []), 'opaque_traces': stats['opaque'],
         'design_models': [{'distinct_states': g.distinct, 'generated': g.generated, 'depth': g.depth} for g in gens]
                          + [{'nested_distinct_states': nest.distinct}],
